@@ -7,7 +7,7 @@ import math
 import numpy as np
 
 from ..alph import Rx, Ry, Rz
-from ..core import CaseResult
+from ..core import CaseResult, variants
 
 PROP = "C10"
 LEVEL = "exploration"
@@ -84,6 +84,30 @@ def check_case(case):
             if tx or ty or tz or any(off):
                 r.nontrivial.add(key.rsplit(":c=", 1)[0])
             r.states += 1
+    # argument kinds x call forms (positional / every argument by its documented name) on two rays of this case: the g-vector and the
+    # tilt matrix in every container / layout, every scalar as int / numpy scalar where it is a whole number, float32
+    for etad, ty, tz in ((etas[1], tilts[0], tilts[2]), (etas[3], 0.0, 0.0)):
+        eta = math.radians(etad)
+        v = np.array([math.cos(tth), -math.sin(tth) * math.sin(eta), math.sin(tth) * math.cos(eta)])
+        R = Rx(tx) @ Ry(ty) @ Rz(tz)
+        Gt = 2 * math.pi / 0.5 * (v - np.array([1.0, 0, 0]))
+        a2 = [tth, eta, 135.0, 0.5, 0.25, 512.0, -31.0, R, 2.0, -2.0, 1.0]
+        a1 = [Gt, math.cos(tth), 0.5, 135.0, 0.5, 0.25, 512.0, -31.0, R, 2.0, -2.0, 1.0]
+        key = "tth=%g:eta=%g:tilt=(%g,%g,%g)" % (tthd, etad, tx, ty, tz)
+        sc = lambda a, b: float(np.max(np.abs(np.asarray(a, float) - np.asarray(b, float)))) / (135.0 / 0.25)
+        # the tilt matrix is indexed R_tilt[i, j]: a numpy array by contract, nested lists / tuples are not accepted by the unchanged library
+        nolist = ("list", "tuple", "int list", "int tuple")
+        for pos in range(len(a2)):
+            variants(r, key + ":det_coor2", detector.det_coor2, a2, pos, 1e-11, 1e-5, dev=sc, skip=nolist if pos == 7 else ())
+        for pos in range(len(a1)):
+            variants(r, key + ":det_coor", detector.det_coor, a1, pos, 1e-9, 1e-4, dev=sc, skip=nolist if pos == 8 else ())
+            variants(r, key + ":det_v", detector.det_v, a1, pos, 1e-9, 1e-4, skip=nolist if pos == 8 else ())
+        d2 = detector.det_coor2(*a2)
+        a3 = [float(d2[0]), float(d2[1]), 135.0, 0.5, 0.25, 512.0, -31.0, R]
+        for pos in range(len(a3)):
+            variants(r, key + ":detector_to_lab", detector.detector_to_lab, a3, pos, 1e-11, 1e-4, skip=nolist if pos == 7 else (), dev=lambda a, b: float(np.max(np.abs(np.asarray(a, float) - np.asarray(b, float)))) / 135.0)
+        for pos in range(3):
+            variants(r, key + ":detect_tilt", tools.detect_tilt, [tx, ty, tz], pos, 1e-12, 1e-6)
     r.transitions = r.evals
     return r
 
